@@ -317,6 +317,8 @@ def instances(tier):
             for km in ("default", "custom"):
                 if N < 7 and (B != 5 or km != "default"):
                     continue
+                if not q and N >= 10 and (B != 5 or (N == 12 and km == "custom")):
+                    continue  # (cost grows ~x3 per byte: the largest files run at one buffer size)
                 if q and N > 9 and B != 5:
                     continue
                 for osf in ((False, True) if (B == 5 and km == "default" and N <= 9) else (False,)):
